@@ -12,6 +12,7 @@ MCP tool libraries, even where the underlying operation is synchronous.
 
 from __future__ import annotations
 
+import math
 from typing import TYPE_CHECKING, TypeVar
 
 from xknx.core.connection_state import XknxConnectionState
@@ -67,7 +68,12 @@ def _numeric_bounds(
 ) -> tuple[float | None, float | None, float | None]:
     """Return ``(value_min, value_max, resolution)`` for numeric DPTs, else ``None``s."""
     if issubclass(dpt, DPTNumeric):
-        return (float(dpt.value_min), float(dpt.value_max), float(dpt.resolution))
+        # an unbounded side (DPT 14: -inf / inf) is no JSON number - None like "no bound"
+        value_min, value_max, resolution = (
+            float(bound) if math.isfinite(bound) else None
+            for bound in (dpt.value_min, dpt.value_max, dpt.resolution)
+        )
+        return (value_min, value_max, resolution)
     return (None, None, None)
 
 
@@ -166,6 +172,9 @@ def _jsonify(value: object) -> GroupValue:
         return value.name.lower()
     if isinstance(value, tuple):
         return [_jsonify(item) for item in value]
+    if isinstance(value, float) and not math.isfinite(value):
+        # nan / inf are no JSON numbers; as text they are accepted by the encoders again
+        return str(value)
     if value is None or isinstance(value, bool | int | float | str | list | dict):
         return value
     return str(value)
